@@ -370,6 +370,16 @@ fn gen_payload(b64_flag: bool, ser: Ser, detached: bool) -> Vec<u8> {
   if ctx::choose(3) == 0 {
     p.extend_from_slice(b".with.dots");
   }
+  // one payload in 150 is large, with sizes on both sides of the 64 KiB / 128 KiB marks
+  if ctx::chance(1, 150) {
+    let target = [65_535usize, 65_536, 65_537, 65_538, 98_304, 131_071, 131_073][ctx::choose(7)];
+    ctx::stat("probe.large_payload");
+    let filler = ctx::bytes(64);
+    while p.len() < target {
+      let take = (target - p.len()).min(filler.len());
+      p.extend(filler[..take].iter().map(|b| if kind == 0 { *b } else { b'a' + (*b % 26) }));
+    }
+  }
   // an attached un-encoded payload must not contain '.' in the compact form (the encoder refuses it otherwise)
   if !b64_flag && !detached && ser == Ser::Compact {
     // CharSet::Default: printable ASCII without '.'
@@ -423,6 +433,15 @@ fn produce(signers: &[Signer], events: &mut Vec<SignEvent>, ser: Ser) -> Option<
     order.swap(i, ctx::choose(i + 1));
   }
   order.truncate(n_signers);
+  // one general token in 100 has MANY recipients (signers taking turns): any number of recipients is legal
+  if ser == Ser::General && ctx::chance(1, 100) {
+    let many = 30 + ctx::choose(12);
+    let base = order.clone();
+    while order.len() < many {
+      order.push(base[order.len() % base.len()]);
+    }
+    ctx::stat("probe.general_many_recipients");
+  }
   let signed_payload: Vec<u8> = if b64_flag { b64(&raw).into_bytes() } else { raw.clone() };
   // all recipients of one token agree on the VALUE of b64 (the general encoder demands it); each may spell the default
   // out ("b64": true, marked critical) or leave it out
@@ -779,6 +798,8 @@ enum Move {
   BothPayloads,
   WrongDetached,
   StripSignature,
+  /// one or two bytes appended to a signature (a longer byte string is another byte string)
+  ExtendSignature,
 }
 
 struct Delivered {
@@ -801,7 +822,7 @@ fn flip_in_segment(seg: &str) -> Option<String> {
 }
 
 fn deliver(n: &Notice, others: &[Notice]) -> Delivered {
-  let mv = match ctx::weighted(&[8, 2, 2, 2, 1, 1, 1, 1, 1, 1]) {
+  let mv = match ctx::weighted(&[8, 2, 2, 2, 1, 1, 1, 1, 1, 1, 1]) {
     0 => Move::Intact,
     1 => Move::FlipProtected,
     2 => Move::FlipPayload,
@@ -811,7 +832,13 @@ fn deliver(n: &Notice, others: &[Notice]) -> Delivered {
     6 => Move::AlgToUnprotected,
     7 => Move::BothPayloads,
     8 => Move::WrongDetached,
-    _ => Move::StripSignature,
+    9 => Move::StripSignature,
+    _ => Move::ExtendSignature,
+  };
+  let extend = |seg: &str| -> Option<String> {
+    let mut raw = b64url_decode(seg)?;
+    raw.extend_from_slice(&ctx::bytes(1 + ctx::choose(2)));
+    Some(b64(&raw))
   };
   let mut wire = n.wire.clone();
   let mut detached = n.detached.clone();
@@ -952,6 +979,40 @@ fn deliver(n: &Notice, others: &[Notice]) -> Delivered {
         None
       }
     }
+    (Move::ExtendSignature, Ser::Compact) => {
+      let parts: Vec<&str> = n.wire.split('.').collect();
+      match (parts.len(), parts.get(2).and_then(|s| extend(s))) {
+        (3, Some(e)) => {
+          wire = format!("{}.{}.{e}", parts[0], parts[1]);
+          Some(())
+        }
+        _ => None,
+      }
+    }
+    (Move::ExtendSignature, _) => json_edit(&|v: &mut Value| {
+      let target: Option<&mut Value> = if v.get("signatures").is_some() {
+        let k = v["signatures"].as_array().map(|a| a.len()).unwrap_or(0);
+        if k == 0 {
+          None
+        } else {
+          let i = ctx::choose(k);
+          v["signatures"][i].get_mut("signature")
+        }
+      } else {
+        v.get_mut("signature")
+      };
+      match target {
+        Some(Value::String(sig)) => match extend(sig) {
+          Some(e) => {
+            *sig = e;
+            true
+          }
+          None => false,
+        },
+        _ => false,
+      }
+    })
+    .map(|w| wire = w),
     (Move::StripSignature, Ser::Compact) => {
       let parts: Vec<&str> = n.wire.split('.').collect();
       wire = format!("{}.{}.", parts[0], parts.get(1).copied().unwrap_or(""));
@@ -982,6 +1043,7 @@ fn deliver(n: &Notice, others: &[Notice]) -> Delivered {
     Move::BothPayloads => ctx::stat("fault.adversary.both_payloads"),
     Move::WrongDetached => ctx::stat("fault.adversary.wrong_detached_payload"),
     Move::StripSignature => ctx::stat("fault.adversary.strip_signature"),
+    Move::ExtendSignature => ctx::stat("fault.adversary.extend_signature"),
     Move::Intact => {}
   }
   Delivered { wire, detached, mv }
@@ -1071,6 +1133,24 @@ fn receive(prop: &str, signers: &[Signer], events: &[SignEvent], n: &Notice, d: 
       w[idx] = wrong;
     }
     let mut key_json = signers[si].jwk.clone();
+    // the receiver's copy of the key may pin an algorithm spelled differently from the registered name, or another
+    // algorithm altogether: a pin that does not EQUAL the header's alg must make verification fail
+    if !wrong && ctx::chance(1, 12) {
+      let alg = signers[si].alg;
+      let pin = match ctx::choose(4) {
+        0 => alg.to_ascii_lowercase(),
+        1 => alg.to_ascii_uppercase(),
+        2 => format!("{alg} "),
+        _ => (if alg == "EdDSA" { "ES256" } else { "EdDSA" }).to_owned(),
+      };
+      if pin != alg {
+        key_json["alg"] = pin.into();
+        wrong = true;
+        ctx::stat("fault.receiver.key_pins_unequal_alg");
+        let mut w = wrong_key.borrow_mut();
+        w[idx] = true;
+      }
+    }
     if let Some(label) = trust_label {
       // the receiver's trust store files every key under its own label (kid is metadata, not key material)
       key_json["kid"] = label.into();
@@ -1165,8 +1245,8 @@ fn receive(prop: &str, signers: &[Signer], events: &[SignEvent], n: &Notice, d: 
       ctx::violation(
         "C01",
         "C01.verified_only_if_check_succeeded",
-        format!("{ser_name}/verified-under-another-signers-key"),
-        "token reported verified under the key of a signer that did not sign it",
+        format!("{ser_name}/verified-under-another-signers-key-or-unequal-pin"),
+        "token reported verified under a key that did not sign it or pins an algorithm unequal to the header's",
       );
     }
     match o {
